@@ -1097,11 +1097,84 @@ func intFloatSimplify(op opcode, s ssort, p0 int, args []*term) *term {
 		return mk(oSBV2F, sF64, r)
 	case oFLt, oFLe, oFEq:
 		a, ok1 := asIntFloat(args[0])
-		if !ok1 {
+		b, ok2 := asIntFloat(args[1])
+		if ok1 != ok2 {
+			// int-valued float against an arbitrary finite constant: decide by range when possible
+			var it, c *term
+			itLeft := ok1
+			if ok1 {
+				it, c = a, args[1]
+			} else {
+				it, c = b, args[0]
+			}
+			if c.isConst() {
+				cv := math.Float64frombits(c.bits)
+				if cv != cv {
+					return mkBool(false)
+				}
+				lo, hi, _ := it.bvRange()
+				flo, fhi := float64(lo), float64(hi)
+				switch {
+				case op == oFEq:
+					if cv < flo || cv > fhi || cv != math.Trunc(cv) {
+						return mkBool(false)
+					}
+				case itLeft && op == oFLt: // it < c
+					if fhi < cv {
+						return mkBool(true)
+					}
+					if flo >= cv {
+						return mkBool(false)
+					}
+				case itLeft && op == oFLe:
+					if fhi <= cv {
+						return mkBool(true)
+					}
+					if flo > cv {
+						return mkBool(false)
+					}
+				case !itLeft && op == oFLt: // c < it
+					if cv < flo {
+						return mkBool(true)
+					}
+					if cv >= fhi {
+						return mkBool(false)
+					}
+				case !itLeft && op == oFLe:
+					if cv <= flo {
+						return mkBool(true)
+					}
+					if cv > fhi {
+						return mkBool(false)
+					}
+				}
+				// non-integral constant inside the range: compare against floor/ceil
+				if cv == math.Trunc(cv) {
+					return nil
+				}
+				fl := tBV(64, uint64(int64(math.Floor(cv))))
+				switch {
+				case itLeft: // it < c  <=> it <= floor(c)   (also for <=)
+					return mk(oSLe, sBool, it, fl)
+				default: // c < it <=> floor(c) < it
+					return mk(oSLt, sBool, fl, it)
+				}
+			}
 			return nil
 		}
-		b, ok2 := asIntFloat(args[1])
-		if !ok2 {
+		if !ok1 {
+			// isInteger idiom: v == float64(int64(v))  <=>  in-range(v) and v == trunc(v)
+			if op == oFEq {
+				for i := 0; i < 2; i++ {
+					v, w := args[i], args[1-i]
+					if w.op == oSBV2F && w.args[0].op == oIte {
+						ite := w.args[0]
+						if ite.args[1].op == oF2SBV && ite.args[1].args[0] == v && ite.args[2].isConst() && ite.args[2].bits == 0x8000000000000000 {
+							return tAnd(ite.args[0], mk(oFEq, sBool, v, mkP(oFRound, sF64, 0, 0, "", v)))
+						}
+					}
+				}
+			}
 			return nil
 		}
 		switch op {
